@@ -104,6 +104,22 @@ int main(int argc, char** argv) {
       std::vector<double> ca = comps_from_matrix(A), cb = comps_from_matrix(B);
       double SA = norm1(ca), SB = norm1(cb);
       SU_vector a = vec_from_comps(ca, d), b = vec_from_comps(cb, d);
+      if (op == "projector" || op == "identity" || op == "generator" || op == "posproj" || op == "negproj") {
+        // a factory returns an independent vector every time: modifying one result must not change the next one
+        auto make = [&]() -> SU_vector {
+          if (op == "projector") return SU_vector::Projector(d, p[0]);
+          if (op == "identity") return SU_vector::Identity(d);
+          if (op == "generator") return SU_vector::Generator(d, p[0]);
+          if (op == "posproj") return SU_vector::PosProjector(d, p[0]);
+          return SU_vector::NegProjector(d, p[0]);
+        };
+        SU_vector first = make();
+        SU_vector keep = first;            // copy
+        first *= 2.0; first[0] += 1.0;     // scribble over the first result
+        SU_vector moved = make(); moved = make(); moved *= 3.0;
+        SU_vector second = make();
+        expect_same("factory-result-independent", second, keep, 0);
+      }
       if (op == "tomatrix") {
         auto m = a.GetGSLMatrix();
         expect_gsl("GetGSLMatrix", m.get(), A, SA);
@@ -296,23 +312,7 @@ int main(int argc, char** argv) {
         Const params; set_params(params, d, h);
         auto U = params.GetTransformationMatrix(d);
         expect_gsl("GetTransformationMatrix", U.get(), R, 8.0);
-      } else if (op == "projector" || op == "identity" || op == "generator" || op == "posproj" || op == "negproj") {
-        // a factory returns an independent vector every time: modifying one result must not change the next one
-        auto make = [&]() -> SU_vector {
-          if (op == "projector") return SU_vector::Projector(d, p[0]);
-          if (op == "identity") return SU_vector::Identity(d);
-          if (op == "generator") return SU_vector::Generator(d, p[0]);
-          if (op == "posproj") return SU_vector::PosProjector(d, p[0]);
-          return SU_vector::NegProjector(d, p[0]);
-        };
-        SU_vector first = make();
-        SU_vector keep = first;            // copy
-        first *= 2.0; first[0] += 1.0;     // scribble over the first result
-        SU_vector moved = make(); moved = make(); moved *= 3.0;
-        SU_vector second = make();
-        expect_same("factory-result-independent", second, keep, 0);
-      }
-      if (op == "projector") {
+      } else if (op == "projector") {
         SU_vector r = SU_vector::Projector(d, p[0]); expect_vec("Projector", r, R, 1);
         auto m = r.GetGSLMatrix(); expect_gsl("Projector:matrix", m.get(), R, 1);
       } else if (op == "identity") {
